@@ -38,6 +38,8 @@ class FuncInfo:
 
     @property
     def key(self):
+        if getattr(self, 'pinned_key', None):
+            return self.pinned_key         # a helper that was moved / renamed keeps the key the rules know
         return f'{self.module.name}.{self.qualname}'
 
     @property
@@ -377,11 +379,15 @@ class Repo:
             owner = qual.rsplit('.', 1)[0] if '.' in qual else None
             cands = []
             for f in new:
-                if f.module.name != mod or (f.cls.name if f.cls else None) != owner:
+                same_place = f.module.name == mod and (f.cls.name if f.cls else None) == owner
+                moved = owner is None and f.cls is None and f.module.name != mod      # module-level helper moved to another module
+                if not (same_place or moved):
                     continue
                 if len(f.params()) != len(private[key]['params']):
                     continue
                 callers = [c for c in private[key]['callers'] if self.has_func(c)]
+                if f.module.name != mod and not callers:
+                    continue            # a move is only recognised through the former callers
                 hit = False
                 for c in callers:
                     if c not in calls:
@@ -392,10 +398,14 @@ class Repo:
             if len(cands) == 1:
                 f = cands[0]
                 self.renamed[key] = f.key
-                f.qualname = qual
-                f.module.functions[qual] = f
-                if f.cls is not None:
-                    f.cls.methods[qual.rsplit('.', 1)[1]] = f
+                if f.module.name != mod:
+                    f.pinned_key = key
+                    self.modules[mod].functions[qual] = f
+                else:
+                    f.qualname = qual
+                    f.module.functions[qual] = f
+                    if f.cls is not None:
+                        f.cls.methods[qual.rsplit('.', 1)[1]] = f
         # renamed parameters of private helpers (same number and kinds): the rules keep using the old names
         for key, info in private.items():
             if not self.has_func(key):
